@@ -294,7 +294,9 @@ def apply_time_range_vevent(start, end, comp, tzify):
 def apply_time_range_vjournal(start, end, comp, tzify):
     dtstart = comp.get("DTSTART")
     if not dtstart:
-        raise MissingProperty("DTSTART")
+        # DTSTART is optional in a VJOURNAL; RFC 4791, section 9.9: such a
+        # component does not overlap any time range
+        return False
 
     if not (end > tzify(dtstart.dt)):
         return False
